@@ -7,6 +7,7 @@ from ..e1explore import Concrete
 from ..e1 import END, Imprecise
 from ..tables import base_name, MASK_BIT_OF_CLASS
 
+RETRY_INLINED = True
 LEVEL = 'other'
 
 UNRESERVED = set(b'ABCDEFGHIJKLMNOPQRSTUVWXYZabcdefghijklmnopqrstuvwxyz0123456789-._~')
